@@ -402,7 +402,7 @@ def cases(tier, seed):
     rnd = harness.rng('C11plan', seed)
     out = []
     if tier == 'quick':
-        groups = 8
+        groups = 14          # 0-7: one ordinary group per input / option set; 8-13: special inputs and presentations
         inputs = INPUTS_QUICK
         npres = 3
     else:
@@ -412,9 +412,9 @@ def cases(tier, seed):
     for g in range(groups):
         pdb = inputs[g % len(inputs)] if tier == 'quick' else rnd.choice(inputs)
         options = rnd.choice(OPTION_SETS)
-        if tier == 'quick' and g == groups - 1:
+        if tier == 'quick' and g == 7:
             options = OPTION_SETS[-2 + seed % 2]      # every quick run has one Go-model group
-        if tier == 'quick' and g == groups - 2:
+        if tier == 'quick' and g == 6:
             options = OPTION_SETS[-4 + seed % 2]      # ... and one with requested terminal modifications (caps / neutral)
         pres = rnd.sample(PRESENTATIONS, npres) if npres < len(PRESENTATIONS) else list(PRESENTATIONS)
         if not any(p[0] == 'hashseed' for p in pres):
@@ -441,33 +441,33 @@ def cases(tier, seed):
                         'hashseed': rnd.choice([1, 2, 3, 12345]), 'split_first_residue': True})
         grp = {'pdb': pdb, 'options': options, 'presentations': pres, 'pseed': rnd.randrange(10 ** 6),
                'hashseed': rnd.choice([1, 2, 3, 12345])}
-        if (tier == 'quick' and g == 1) or (tier != 'quick' and rnd.random() < 0.15):
+        if (tier == 'quick' and g == 8) or (tier != 'quick' and rnd.random() < 0.15):
             # the structure is handed over as a .gro file (no element column: the reader derives elements from the names it sees);
             # file-level presentations that edit PDB columns are replaced by the file-level hydrogen renamings
             grp['gro'] = True
             ren = [('rename-h-file', {'hstyle': 'pdb-rotation'}), ('rename-h-file', {'hstyle': 'arbitrary'})]
             grp['presentations'] = [p_ for p_ in pres if p_[0] not in ('translate-file', 'reverse-file', 'rename-h-file')][:max(1, len(pres) - 2)] + \
                 (ren if tier != 'quick' else ren[:1])
-        elif tier == 'quick' and g == 2:
+        elif tier == 'quick' and g == 9:
             grp['presentations'] = pres[:2] + [('rename-h-file', {'hstyle': 'pdb-rotation'})]
-        elif (tier == 'quick' and g == 4) or (tier != 'quick' and g % 12 == 5):
+        elif (tier == 'quick' and g == 11) or (tier != 'quick' and g % 12 == 5):
             # two bonded chains whose atom serial numbers restart with every chain (as many modelling tools write them), secondary
             # structure computed from the structure itself
             grp.update({'pdb': T1 + '3i40/3i40.pdb', 'options': ['-ff', 'martini3001', '-dssp', '-ignore', 'HOH'], 'restart_serials': True,
                         'presentations': [('permute', {'pstyle': 'random'}), ('reverse-file', {}), ('hashseed', {})]})
-        elif (tier == 'quick' and g == 5) or (tier != 'quick' and g % 12 == 7):
+        elif (tier == 'quick' and g == 12) or (tier != 'quick' and g % 12 == 7):
             # a free amino acid: a chain of one residue, which is N-terminus and C-terminus at once (both terminal modifications meet on
             # its one backbone particle)
             grp.update({'pdb': 'verif:vf/gen/free_alanine.pdb', 'options': rnd.choice([['-ff', 'martini3001'], ['-ff', 'martini22']]),
                         'presentations': [('hashseed', {}), ('permute', {'pstyle': 'reverse'}), ('rigid', {}), ('hashseed', {'n': 2})]})
             grp['hashseed'] = rnd.choice([1, 2, 3, 4, 5])
-        elif (tier == 'quick' and g == 6) or (tier != 'quick' and g % 24 == 11):
+        elif (tier == 'quick' and g == 13) or (tier != 'quick' and g % 24 == 11):
             # more than 500 backbone particles in ONE elastic network, moved far from the origin (two runs of a
             # 522-residue assembly)
             grp.update({'pdb': T0 + 'mini-protein1_betasheet/aa.pdb', 'copies': 18,
                         'options': ['-ff', 'martini3001', '-elastic', '-eunit', 'all'],
                         'presentations': [('translate-file', {'far': True}), ('hashseed', {})]})
-        elif tier == 'quick' and g == 3:
+        elif tier == 'quick' and g == 10:
             # a deposited structure with CONECT records between chains (disulfide bridges of insulin), its atom records reversed
             grp.update({'pdb': T1 + '3i40/3i40.pdb', 'options': ['-ff', 'martini3001', '-elastic', '-p', 'backbone'],
                         'presentations': [('reverse-file', {}), ('hashseed', {})]})
